@@ -441,8 +441,10 @@ func realCasters(raw json.RawMessage) any {
 	if err := loader.Transform(a.S, &nc); err == nil {
 		nano = fmt32(float32(nc))
 	}
+	// since the round-5 repair NanoCPUs reads like the float casters (parseYAMLNumber = parseYAMLFloat(_, 64)): the
+	// reference reading, narrowed to float32 by the conversion NanoCPUs(f)
 	rawRef := any(nil)
-	if f, err := strconv.ParseFloat(a.S, 64); err == nil {
+	if f, ok := refFloat(a.S, 64); ok {
 		rawRef = fmt32(float32(f))
 	}
 	out["nanocpus"] = []any{nano, rawRef}
@@ -508,7 +510,7 @@ func judgeCasters(args, real, drv json.RawMessage) *core.Verdict {
 		}
 	}
 	if len(r.Nanocpus) == 2 && fmt.Sprint(r.Nanocpus[0]) != fmt.Sprint(r.Nanocpus[1]) {
-		return core.Disagree(fmt.Sprintf("NanoCPUs.DecodeMapstructure(%q)=%v but strconv.ParseFloat gives %v (the model takes the raw parser as its parameter)", a.S, r.Nanocpus[0], r.Nanocpus[1]))
+		return core.Disagree(fmt.Sprintf("NanoCPUs.DecodeMapstructure(%q)=%v but the reference float reading gives %v (Interp.decodeNanoCPUs = the 64-bit component of the model's float parser)", a.S, r.Nanocpus[0], r.Nanocpus[1]))
 	}
 	if fmt.Sprint(d["bool"]) != fmt.Sprint(r.Table["bool"]) {
 		return core.Disagree(fmt.Sprintf("Interp.parseBool(%q)=%v but toBoolean=%v", a.S, d["bool"], r.Table["bool"]))
@@ -805,6 +807,7 @@ func runC08(ctx *core.Ctx) {
 		ctx.Add("interpolate", interpArgs{Tree: core.EncodeVal(t), Env: env})
 	}
 
+	runC08Docs(ctx)
 	runC08Loads(ctx)
 }
 
